@@ -19,6 +19,7 @@ package qbft
 // Part 4 (history): the unsigned alteration families against ONE long-lived component that has seen the genuine
 // messages first (A), sees them after each altered copy (B; F = on a fresh component per altered copy), or has seen
 // the other duty's instance (C); plus the differential oracle: verdict with history == verdict of a fresh component.
+// Part 5 (context) and part 6 (local life-cycle calls and the expiry window): see zz_verif_c05x_test.go.
 
 import (
 	"bytes"
@@ -31,6 +32,7 @@ import (
 	"math"
 	"math/big"
 	"math/rand"
+	"os"
 	"runtime"
 	"sort"
 	"strings"
@@ -1041,6 +1043,12 @@ type c05x struct {
 	found  *c05outcome
 	mk     func() (*c05rcv, error) // builds another receiver like rc (nil: c05newRcv)
 	hist   *c05hist                // non-nil: the family runs against a component with history
+	// dimension "ctx" (zz_verif_c05x_test.go): every emitted payload is run under a context that ends at its k-th observation
+	ctxdim        bool
+	ctxBothCauses bool
+	ctxSeen       int
+	ctxPart       int
+	ctxParts      int
 }
 
 func (x *c05x) newRcv() (*c05rcv, error) {
@@ -1053,6 +1061,10 @@ func (x *c05x) newRcv() (*c05rcv, error) {
 // emit evaluates one altered payload. class names the distinct class for the evidence.
 func (x *c05x) emit(id, class string, payload []byte) {
 	if x.only != "" && id != x.only {
+		return
+	}
+	if x.ctxdim {
+		x.emitCtx(id, class, payload)
 		return
 	}
 	if x.hist != nil {
@@ -2665,6 +2677,8 @@ func (x *c05x) runFamily(fam string, mat c05mat, thorough bool) {
 		var typ int32
 		fmt.Sscanf(fam[strings.IndexByte(fam, '=')+1:], "%d", &typ)
 		x.famBoundarySlots(typ, thorough)
+	case strings.HasPrefix(fam, "ctx/"):
+		x.runCtx(fam, mat, thorough)
 	case strings.HasPrefix(fam, "raw-short/"):
 		var lo, hi int
 		fmt.Sscanf(fam, "raw-short/%d-%d", &lo, &hi)
@@ -2716,6 +2730,13 @@ func (x *c05x) runUnit(fam string, mat c05mat, thorough bool) error {
 	x.runFamily(fam, mat, thorough)
 	rc.cancel()
 	return nil
+}
+
+// c05timing prints the wall time of a unit when VERIF_C05_TIMING is set (tuning of the unit sizes only).
+func c05timing(t0 time.Time, unit string) {
+	if os.Getenv("VERIF_C05_TIMING") != "" {
+		fmt.Printf("c05timing %6d ms %s\n", time.Since(t0).Milliseconds(), unit)
+	}
 }
 
 func TestVerifC05(t *testing.T) {
@@ -2791,6 +2812,15 @@ func TestVerifC05(t *testing.T) {
 	// history on a long-lived component
 	families = append(families, "hist-A/fields", "hist-A/subst", "hist-B/fields", "hist-B/subst", "hist-F/fields", "hist-F/subst",
 		"hist-C/cross", "hist-B/cross", "hist-F/cross")
+	// the handler's context ends at its k-th observation
+	ctxParts := 4
+	if thorough {
+		ctxParts = 8
+	}
+	for i := 0; i < ctxParts; i++ {
+		families = append(families, fmt.Sprintf("ctx/fields#%d/%d", i, ctxParts))
+	}
+	families = append(families, "ctx/subst", "ctx/cross", "ctx/extra")
 	// boundary slots through handle, one unit per duty type
 	for _, typ := range c05wireTypes {
 		families = append(families, fmt.Sprintf("bslots/t=%d", typ))
@@ -2819,6 +2849,20 @@ func TestVerifC05(t *testing.T) {
 			fmt.Printf("replay decided: %s %s\n", sig, desc)
 			if sig != "" {
 				r.Violation(sig, desc, c)
+			}
+			return
+		}
+		if c.Family == "seq" {
+			var sc c05seqCase
+			if err := r.ReplayCase(&sc); err != nil {
+				t.Fatal(err)
+			}
+			for _, v := range c05seqVariants(e, corpus) {
+				if v.name == sc.Variant {
+					c05seqEval(t, r, e, v, sc.Flood, sc.Ops)
+					res := c05seqBubble(t, e, v, sc.Flood, sc.Ops)
+					fmt.Printf("replay seq %s flood=%v %v: %+v %s\n", sc.Variant, sc.Flood, sc.Ops, res.steps, res.harness)
+				}
 			}
 			return
 		}
@@ -2914,10 +2958,12 @@ func TestVerifC05(t *testing.T) {
 				return
 			}
 			x := &c05x{t: t, r: r, e: e, base: en}
+			t0 := time.Now()
 			if err := x.runUnit(fam, mat, thorough); err != nil {
 				r.NotExhaustive("cannot build a receiver: " + err.Error())
 				return
 			}
+			c05timing(t0, en.Key+" "+fam)
 			if sampled < 2 {
 				sampled++
 				r.Sample(map[string]any{"corpus_message": c05describe(en), "family": fam})
@@ -2934,6 +2980,34 @@ func TestVerifC05(t *testing.T) {
 				return
 			}
 			c05gaterUnit(t, r, cfg, ck, "")
+		}
+	}
+	// global units: local life-cycle calls and the expiry window, one unit per (duty, deadliner output full?, first operation)
+	seqLen := 3
+	if thorough {
+		seqLen = 4
+	}
+	for _, v := range c05seqVariants(e, corpus) {
+		if len(v.msgs) != len(c05kinds) {
+			r.NotExhaustive("seq: not every message kind is available for duty " + v.name)
+			continue
+		}
+		for _, flood := range []bool{false, true} {
+			var firsts []string
+			for _, en := range v.msgs {
+				firsts = append(firsts, "m:"+en.Kind)
+			}
+			for _, first := range append(firsts, c05seqLocalOps...) {
+				if !r.Mine() {
+					continue
+				}
+				if r.Expired() {
+					return
+				}
+				t0 := time.Now()
+				c05seqUnit(t, r, e, v, flood, first, seqLen)
+				c05timing(t0, fmt.Sprintf("seq %s flood=%v %s", v.name, flood, first))
+			}
 		}
 	}
 	// global units: short byte strings, oversize frames
